@@ -1,6 +1,7 @@
 import Driver.Proto
 import XsdataModel.Py.TblEnv
 import XsdataModel.Lex.Dates
+import XsdataModel.Lex.Period
 open Lean Proto Py Xs.Dates
 
 namespace OpsDates
@@ -53,6 +54,35 @@ def run (op : String) (a : Json) : Option (Except String Json) :=
       let v ← ints a "v"
       match v with
       | [some h, some m, some s, some f] => pure <| ok (jBool (validateTime h m s f))
+      | _ => .error "arity"
+  | "period.parse" => some do
+      let s ← getStr a "s"
+      pure <| match XmlPeriod.ofString tblEnv s with
+        | some (d, p) => ok (jObj [("data", jStr d), ("year", jOpt jInt p.year), ("month", jOpt jInt p.month),
+            ("day", jOpt jInt p.day), ("offset", jOpt jInt p.offset)])
+        | none => err "ValueError"
+  | "dur.parse" => some do
+      let s ← getStr a "s"
+      pure <| match XmlDuration.ofString tblEnv s with
+        | some (d, p) => ok (jObj [("data", jStr d), ("negative", jBool p.negative), ("years", jOpt jInt p.years),
+            ("months", jOpt jInt p.months), ("days", jOpt jInt p.days), ("hours", jOpt jInt p.hours),
+            ("minutes", jOpt jInt p.minutes), ("seconds", jOpt jStr p.seconds)])
+        | none => err "ValueError"
+  | "date.cmp" => some do
+      let kind ← getStr a "kind"; let x ← ints a "a"; let y ← ints a "b"
+      let key : List (Option Int) → Except String Int := fun v =>
+        match String.ofList kind, v with
+        | "time", [h, mi, s, f, o] => do
+            pure (XmlTime.timeline ⟨← req h, ← req mi, ← req s, ← req f, o⟩)
+        | "datetime", [y, m, d, h, mi, s, f, o] => do
+            pure (XmlDateTime.timeline ⟨← req y, ← req m, ← req d, ← req h, ← req mi, ← req s, ← req f, o⟩)
+        | k, _ => .error s!"bad kind/arity {k}"
+      let ka ← key x; let kb ← key y
+      pure <| ok (jList jBool ([CmpOp.eq, .ne, .lt, .le, .gt, .ge].map (·.apply ka kb)))
+  | "date.days_from_civil" => some do
+      let v ← ints a "v"
+      match v with
+      | [some y, some m, some d] => pure <| ok (jInt (daysFromCivil y m d))
       | _ => .error "arity"
   | "py.int" => some do
       let s ← getStr a "s"
